@@ -57,6 +57,8 @@ type vProfile struct {
 	regScopes   []int // if set: the target scope of the i-th registration is fixed (needs scopesFirst with exactly that many scopes)
 	regParams   []int // if set: the maximal number of parameters of the i-th registration
 	regResults  []int // if set: the maximal number of results of the i-th registration
+	altUniform  bool  // C15: all parameters of a function are re-encoded the same way (their order is kept)
+	decorSoft   bool  // decorators may take a soft value-group as an extra parameter
 	visErr      bool  // call Visualize(VisualizeError(err)) after every failed Invoke
 }
 
@@ -170,7 +172,15 @@ func (h *vHist) genFunc(kind int, tag string) *vFunc {
 			if h.p.decor3 {
 				nshapes = 5
 			}
+			if h.p.decorSoft {
+				nshapes = 6
+			}
 			switch verifNdInt(tag+".dshape", nshapes) {
+			case 5: // an extra soft value-group parameter
+				f.params = append(f.params, &vParam{t: verifNdType(tag + ".dsoft"), form: 1, group: "g", soft: true})
+				if k.form == 0 {
+					k.form, r.form = 1, 1
+				}
 			case 4: // produces a second key it does not consume
 				f.results = append(f.results, &vResult{t: verifNdType(tag + ".dt3"), form: r.form})
 			case 3: // no input at all: replaces the value
